@@ -56,6 +56,18 @@ def run_one(mod, case, timeout):
     except Exception as exc:  # a bug of the harness itself must never look like 'held' or like a violation
         res = {"status": "inconclusive", "reason": "harness-error:" + type(exc).__name__,
                "trace": traceback.format_exc()[-1500:]}
+        # ... but a crash INSIDE the package (innermost frame in forsys, a builtin error type, on an input every property
+        # module builds as valid) in a call the module did not guard itself is the package's failure, not the harness'
+        fr_ = traceback.extract_tb(exc.__traceback__)
+        crash = (TypeError, KeyError, IndexError, AttributeError, AssertionError, ZeroDivisionError, FloatingPointError,
+                 UnboundLocalError, NameError, RecursionError)
+        if fr_ and isinstance(exc, crash):
+            inner = fr_[-1].filename.replace("\\", "/")
+            if "/forsys/" in inner and "/fv/" not in inner:
+                res = {"status": "violated", "findings": [{
+                    "mech": "package-raises", "clause": "the call returns a result for a valid input",
+                    "detail": {"exc": repr(exc)[:200], "where": f"{inner.rsplit('/', 1)[-1]}:{fr_[-1].name}:{fr_[-1].lineno}",
+                               "tb": traceback.format_exc()[-700:]}}]}
     finally:
         signal.alarm(0)
     res.setdefault("findings", [])
